@@ -386,7 +386,32 @@ func TestC14Enum(t *testing.T) {
 			}
 		}
 	}
-	rec.Sample(map[string]any{"enumerated": "maxChunk 0..16 x (all lengths 0..48 as consecutive messages + all ordered pairs of {0,1,c-1,c,c+1,2c,2c+1}), both roles"})
+	// every message length up to 1100 and around powers of two up to 64 KiB,
+	// as consecutive messages of one conversation, without chunking and with
+	// chunk sizes 64 and 1000 (a length-dependent path in Send, Serialize,
+	// Recv or the reassembly buffer cannot hide from it)
+	var sweep []int
+	for l := 0; l <= 1100; l++ {
+		sweep = append(sweep, l)
+	}
+	for e := 11; e <= 16; e++ {
+		for d := -2; d <= 2; d++ {
+			if v := (1 << e) + d; v <= 65535 {
+				sweep = append(sweep, v)
+			}
+		}
+	}
+	for _, chunk := range []int{0, 64, 1000} {
+		cs := &c14Case{N: 20, Chunk: chunk, Lens: sweep, FromSrv: chunk == 64, ResendMs: 1000, DeadlineMs: 3600000}
+		rec.Current("c14", cs)
+		r := runC14(t, cs)
+		rec.CaseN(int64(len(sweep)), int64(len(sweep)), fmt.Sprintf("C14sweep/%d", chunk), "length_sweep")
+		if r.violation != "" && nviol < 5 {
+			nviol++
+			rec.Violation(r.violation, "c14", cs)
+		}
+	}
+	rec.Sample(map[string]any{"enumerated": "maxChunk 0..16 x (all lengths 0..48 as consecutive messages + all ordered pairs of {0,1,c-1,c,c+1,2c,2c+1}), both roles; plus every length 0..1100 and 2^k+-2 up to 65535 for maxChunk 0, 64, 1000"})
 	rec.SetExhaustive(true)
 	rec.Done()
 	if nviol > 0 {
